@@ -21,6 +21,15 @@
 //!   `deep <n>`             n consecutive empty expansions in a child process with the default
 //!                          8 MiB main-thread stack (a stack overflow is not a panic; it kills
 //!                          the process, so it is observed from outside).
+//!
+//! Every program runs on a *runner thread* behind an allocation guard (`GuardAlloc`): a single
+//! request of `BIG_REQUEST` bytes or more made by the interpreter is never served. The guard
+//! reports `Outcome::BigAlloc` for the program and parks the runner for good (nothing is
+//! allocated, nothing unwinds through the allocator); the next program gets a new runner. So a
+//! program like `\newIntArray\J\dimen0` with a large `\dimen0` (known finding C09-m) costs
+//! nothing and is classified the same way on every machine, instead of taking as long as the
+//! machine needs to fault in gigabytes (2 s here, more than the 45 s watchdog limit in a
+//! freshly restored sandbox, where it was misreported as an endless loop).
 
 use std::cell::{Cell, RefCell};
 use std::collections::HashMap;
@@ -130,6 +139,91 @@ static RECOVERED_TITLES: std::sync::Mutex<Vec<String>> = std::sync::Mutex::new(V
 /// The log of the last run (the renderings of the errors it recovered from), colour stripped.
 static LAST_LOG: std::sync::Mutex<String> = std::sync::Mutex::new(String::new());
 
+// ------------------------------------------------------------------------------------------
+// Allocation guard
+// ------------------------------------------------------------------------------------------
+
+/// A single allocation request of this many bytes or more is refused on a runner thread.
+/// (The step budget keeps every other object of a run far below: registers are 128-512 KiB per
+/// kind, an expansion is cut at 20 000 tokens; in a quick run no request other than the resize of
+/// `\newIntArray` reaches 1 MiB, see `allocation_guard` in the evidence.)
+const BIG_REQUEST: usize = 64 << 20;
+
+thread_local! {
+    /// On a runner thread: where the guard reports a refused request.
+    static RUNNER_OUT: RefCell<Option<std::sync::mpsc::Sender<Outcome>>> = const { RefCell::new(None) };
+    /// Number of accesses to the state `H` (ticks and component borrows) on this thread.
+    static ACCESS_SEQ: Cell<u64> = const { Cell::new(0) };
+    /// `ACCESS_SEQ` at the last `component_mut::<alloc::Component>()`.
+    static ALLOC_MUT_AT: Cell<u64> = const { Cell::new(u64::MAX) };
+}
+/// Evidence: the largest single request served on a runner thread, and the refused requests.
+static MAX_SERVED: std::sync::atomic::AtomicUsize = std::sync::atomic::AtomicUsize::new(0);
+static MAX_SERVED_OTHER: std::sync::atomic::AtomicUsize = std::sync::atomic::AtomicUsize::new(0);
+static REFUSED_NEW_INT_ARRAY: std::sync::atomic::AtomicUsize = std::sync::atomic::AtomicUsize::new(0);
+static REFUSED_OTHER: std::sync::atomic::AtomicUsize = std::sync::atomic::AtomicUsize::new(0);
+/// Programs run on the calling thread (the `deepchild` process: default main-thread stack).
+static INLINE: std::sync::atomic::AtomicBool = std::sync::atomic::AtomicBool::new(false);
+
+#[inline]
+fn access() -> u64 {
+    ACCESS_SEQ.with(|a| {
+        let n = a.get().wrapping_add(1);
+        a.set(n);
+        n
+    })
+}
+
+struct GuardAlloc;
+
+#[global_allocator]
+static GLOBAL: GuardAlloc = GuardAlloc;
+
+unsafe impl std::alloc::GlobalAlloc for GuardAlloc {
+    unsafe fn alloc(&self, l: std::alloc::Layout) -> *mut u8 {
+        if l.size() >= (1 << 20) {
+            big_request(l.size());
+        }
+        std::alloc::System.alloc(l)
+    }
+    unsafe fn alloc_zeroed(&self, l: std::alloc::Layout) -> *mut u8 {
+        if l.size() >= (1 << 20) {
+            big_request(l.size());
+        }
+        std::alloc::System.alloc_zeroed(l)
+    }
+    unsafe fn realloc(&self, p: *mut u8, l: std::alloc::Layout, new_size: usize) -> *mut u8 {
+        if new_size >= (1 << 20) {
+            big_request(new_size);
+        }
+        std::alloc::System.realloc(p, l, new_size)
+    }
+    unsafe fn dealloc(&self, p: *mut u8, l: std::alloc::Layout) {
+        std::alloc::System.dealloc(p, l)
+    }
+}
+
+/// Called for requests of 1 MiB and more. On a runner thread a request of `BIG_REQUEST` bytes
+/// or more is reported and the thread never returns from here (it is parked for good: the
+/// allocator must not unwind, and returning null would abort the process).
+#[cold]
+fn big_request(n: usize) {
+    let tx = RUNNER_OUT.try_with(|r| r.try_borrow().ok().and_then(|g| g.clone())).ok().flatten();
+    let Some(tx) = tx else { return };
+    // `newintarray_primitive_fn` borrows the alloc component and resizes its storage at once:
+    // no other access to the state lies between the borrow and the request.
+    let in_new_int_array = ACCESS_SEQ.with(|a| a.get()) == ALLOC_MUT_AT.with(|a| a.get());
+    if n < BIG_REQUEST {
+        (if in_new_int_array { &MAX_SERVED } else { &MAX_SERVED_OTHER }).fetch_max(n, std::sync::atomic::Ordering::Relaxed);
+        return;
+    }
+    (if in_new_int_array { &REFUSED_NEW_INT_ARRAY } else { &REFUSED_OTHER }).fetch_add(1, std::sync::atomic::Ordering::Relaxed);
+    let _ = tx.send(Outcome::BigAlloc { bytes: n, in_new_int_array });
+    loop {
+        std::thread::park();
+    }
+}
+
 #[derive(Default)]
 struct MemFs {
     files: HashMap<std::path::PathBuf, String>,
@@ -163,6 +257,7 @@ struct H {
 impl H {
     #[inline]
     fn tick(&self, n: u64) {
+        access();
         let s = self.steps.get() + n;
         self.steps.set(s);
         if s > self.budget {
@@ -235,9 +330,18 @@ macro_rules! comp {
         $(
             impl vm::HasComponent<$t> for H {
                 #[inline]
-                fn component(&self) -> &$t { &self.inner.$field }
+                fn component(&self) -> &$t {
+                    access();
+                    &self.inner.$field
+                }
                 #[inline]
-                fn component_mut(&mut self) -> &mut $t { &mut self.inner.$field }
+                fn component_mut(&mut self) -> &mut $t {
+                    let n = access();
+                    if stringify!($field) == "alloc" {
+                        ALLOC_MUT_AT.with(|a| a.set(n));
+                    }
+                    &mut self.inner.$field
+                }
             }
         )+
     };
@@ -385,6 +489,10 @@ fn mode_prefix(mode: &str) -> &'static str {
 fn make_vm(proto: bool, budget: u64) -> vm::VM<H> {
     let mut vm = vm::VM::<H>::new_with_built_in_commands(built_ins(proto));
     vm.state.budget = budget;
+    // `H::default()` has read the real clock (`time::Component::default`, so that path runs for
+    // every VM); the values a program sees are fixed, so that a case replays exactly and the
+    // two runs of a `modes` case cannot differ by a minute: 2026-09-26 22:36.
+    vm.state.inner.time = sl::time::Component::new_with_values(22 * 60 + 36, 26, 9, 2026);
     vm.working_directory = Some("/c09".into());
     {
         let mut fs = vm.state.fs.borrow_mut();
@@ -429,6 +537,116 @@ enum Outcome {
     Budget,
     /// a resource that the interpreter bounds (input nesting) grew beyond its bound
     Unbounded(String),
+    /// the interpreter asked the allocator for `bytes` (>= `BIG_REQUEST`) in a single request;
+    /// the request was refused by the guard and the run abandoned. `in_new_int_array`: the
+    /// request came from `\newIntArray` resizing its storage (known finding C09-m).
+    BigAlloc { bytes: usize, in_new_int_array: bool },
+}
+
+const SIG_NEW_INT_ARRAY: &str = "alloc: newIntArray size unbounded";
+
+fn big_sig(in_new_int_array: bool) -> String {
+    if in_new_int_array {
+        SIG_NEW_INT_ARRAY.to_string()
+    } else {
+        format!("alloc: single request of >= {} MiB", BIG_REQUEST >> 20)
+    }
+}
+
+fn big_detail(src: &str, bytes: usize, in_new_int_array: bool) -> String {
+    format!(
+        "{src:?}: the interpreter asked the allocator for {bytes} bytes in one request{}; the harness refuses single requests of {} MiB and more (on a machine without that much memory the process is aborted, with it the run takes as long as faulting in the pages takes); TeX reports 'capacity exceeded'",
+        if in_new_int_array { " (\\newIntArray resizing its storage to the requested length)" } else { "" },
+        BIG_REQUEST >> 20
+    )
+}
+
+/// The thread that runs the programs of this (case) thread.
+struct Runner {
+    tx: std::sync::mpsc::Sender<(String, bool, u64)>,
+    rx: std::sync::mpsc::Receiver<Outcome>,
+}
+
+thread_local! {
+    static RUNNER: RefCell<Option<Runner>> = const { RefCell::new(None) };
+}
+
+/// `recv` that spins for a moment before it blocks: a program takes a few hundred
+/// microseconds, two futex wake-ups per program would cost a third of that.
+fn spin_recv<T>(rx: &std::sync::mpsc::Receiver<T>) -> Result<T, std::sync::mpsc::RecvError> {
+    for _ in 0..20_000 {
+        match rx.try_recv() {
+            Ok(v) => return Ok(v),
+            Err(std::sync::mpsc::TryRecvError::Disconnected) => return Err(std::sync::mpsc::RecvError),
+            Err(std::sync::mpsc::TryRecvError::Empty) => std::hint::spin_loop(),
+        }
+    }
+    rx.recv()
+}
+
+/// A parked runner keeps its (1 GiB, mostly untouched) stack mapping and its thread: the
+/// unchanged tree parks ~50 runners in a quick and ~200 in a thorough run. Under a change that
+/// makes many programs ask for huge blocks the `run` stream stops at `RUN_STREAM_PARK_CAP`
+/// refused requests (one failure of its own; the other streams go on, their arrays are small
+/// and a refused request there is never labelled C09-m), everything stops at `HARD_PARK_CAP`.
+const RUN_STREAM_PARK_CAP: usize = 3000;
+const HARD_PARK_CAP: usize = 12_000;
+
+fn parked() -> usize {
+    use std::sync::atomic::Ordering::Relaxed;
+    REFUSED_NEW_INT_ARRAY.load(Relaxed) + REFUSED_OTHER.load(Relaxed)
+}
+
+fn spawn_runner() -> Option<Runner> {
+    let (tx, job_rx) = std::sync::mpsc::channel::<(String, bool, u64)>();
+    let (out_tx, rx) = std::sync::mpsc::channel::<Outcome>();
+    std::thread::Builder::new()
+        .name("c09-runner".into())
+        // deep (but budgeted) recursion in the interpreter must not overflow the stack
+        .stack_size(1 << 30)
+        .spawn(move || {
+            RUNNER_OUT.with(|r| *r.borrow_mut() = Some(out_tx.clone()));
+            while let Ok((src, proto, budget)) = spin_recv(&job_rx) {
+                let out = match caught(|| run_program_here(&src, proto, budget)) {
+                    Ok(o) => o,
+                    Err(m) => Outcome::Panic(m),
+                };
+                if out_tx.send(out).is_err() {
+                    break;
+                }
+            }
+            RUNNER_OUT.with(|r| *r.borrow_mut() = None);
+        })
+        .ok()?;
+    Some(Runner { tx, rx })
+}
+
+/// Run a program on the runner thread of this thread (see the module documentation).
+fn run_program(src: &str, proto: bool, budget: u64) -> Outcome {
+    if INLINE.load(std::sync::atomic::Ordering::Relaxed) {
+        return run_program_here(src, proto, budget);
+    }
+    RUNNER.with(|cell| {
+        let mut slot = cell.borrow_mut();
+        if slot.is_none() {
+            if parked() >= HARD_PARK_CAP {
+                return Outcome::Panic(format!("harness: {} allocation requests of {} MiB and more were refused in this run; no further program is run", parked(), BIG_REQUEST >> 20));
+            }
+            *slot = spawn_runner();
+        }
+        let Some(runner) = slot.as_ref() else {
+            return Outcome::Panic("harness: the runner thread cannot be spawned".into());
+        };
+        let out = match runner.tx.send((src.to_string(), proto, budget)) {
+            Ok(()) => spin_recv(&runner.rx).unwrap_or_else(|_| Outcome::Panic("harness: the runner thread died".into())),
+            Err(_) => Outcome::Panic("harness: the runner thread is gone".into()),
+        };
+        if matches!(&out, Outcome::BigAlloc { .. }) || matches!(&out, Outcome::Panic(m) if m.starts_with("harness: the runner thread")) {
+            // the runner is parked inside the allocator for good (or dead): forget it
+            *slot = None;
+        }
+        out
+    })
 }
 
 fn excerpts_of(e: &error::TracedTexError) -> Vec<Excerpt> {
@@ -451,7 +669,7 @@ fn excerpts_of(e: &error::TracedTexError) -> Vec<Excerpt> {
     v
 }
 
-fn run_program(src: &str, proto: bool, budget: u64) -> Outcome {
+fn run_program_here(src: &str, proto: bool, budget: u64) -> Outcome {
     MAX_SOURCES.store(0, std::sync::atomic::Ordering::Relaxed);
     RECOVERED_TITLES.lock().unwrap().clear();
     LAST_LOG.lock().unwrap().clear();
@@ -983,7 +1201,8 @@ fn drive_skip(w: i64, st: i64, sh: i64, ost: &str, osh: &str, rng: &mut Rng) -> 
 }
 
 /// Uses of the registers: `{C}` = `\count1`, `{D}` = `\dimen0`, `{S}` = `\skip0`.
-/// (No `\newIntArray{C}` and no `\sleep{C}`: 2^30 elements / milliseconds.)
+/// (No `\sleep{C}`: 2^30 milliseconds. `\newIntArray\X{C}` costs nothing: a request of 2^30
+/// elements is refused by the allocation guard and reported as known finding C09-m.)
 const USES: &[&str] = &[
     // arithmetic on the register itself
     "\\divide{R} by -1 ", "\\divide{R} by 0 ", "\\divide{R} by 1 ", "\\divide{R} by 2 ", "\\divide{R} by -2147483647 ", "\\divide{R} by {C} ",
@@ -1012,6 +1231,8 @@ const USES: &[&str] = &[
     "\\catcode{C}=12 ", "\\catcode`a={C} ", "\\mathcode{C}=1 ", "\\mathcode`a={C} ", "\\chardef\\C={C} \\C", "\\mathchardef\\M={D} \\the\\M", "\\endlinechar={C} a\n b",
     "\\tracingmacros={C} \\def\\a{}\\a", "\\globaldefs={C} \\count3=1 ", "\\year={C} \\the\\year ", "\\the\\catcode{C} ", "\\the\\mathcode{D} ", "\\dumpFormat={C} ",
     "\\catcode{D}={S} ", "\\endlinechar={D} a\n b", "\\time={S} \\the\\time ",
+    // array lengths
+    "\\newIntArray\\X{C} \\X 0=1 ", "\\newIntArray\\X{D} \\the\\X 0 ", "\\newIntArray\\X-{S} \\X 1=1 ",
 ];
 
 /// Programs (as statement lists): for every register kind (count, dimen, each component of a
@@ -1439,6 +1660,16 @@ impl C09 {
     fn run_stream(&mut self, mode: &str, prog: &str, drv: &mut Driver, o: &mut CaseOutcome) {
         let src = format!("{}{}", mode_prefix(mode), prog);
         o.tag(format!("mode:{mode}"));
+        if parked() >= RUN_STREAM_PARK_CAP {
+            o.tag("outcome:not run (too many refused allocation requests)");
+            o.fail(
+                Kind::ImplPanic,
+                "run",
+                format!("alloc: more than {RUN_STREAM_PARK_CAP} refused requests in one run"),
+                format!("{} programs of this run asked the allocator for {} MiB or more in one request (the unchanged tree: ~50 in a quick run, ~200 in a thorough run, all from \\newIntArray with a huge length); the rest of the `run` stream, starting with this case, was not run", parked(), BIG_REQUEST >> 20),
+            );
+            return;
+        }
         let outcome = run_program(&src, false, 6000);
         if matches!(outcome, Outcome::Ok(..) | Outcome::Err { .. }) {
             // the errors the run recovered from were rendered into the log: their gutters too
@@ -1455,6 +1686,15 @@ impl C09 {
                 o.tag("outcome:unbounded");
                 o.nontrivial = true;
                 o.fail(Kind::ImplVsSpec, "run", "input nesting exceeds the 100-level limit", format!("{what}: the recursion limit of \\input does not stop the run"));
+            }
+            Outcome::BigAlloc { bytes, in_new_int_array } => {
+                // Known finding C09-m is `\newIntArray` resizing its storage to whatever length
+                // the program asks for; the label is used for exactly that call site (the
+                // request arrives while the alloc component is mutably borrowed, before any
+                // other access to the state), any other large request keeps a signature of its own.
+                o.tag(if in_new_int_array { "outcome:big-allocation (newIntArray)" } else { "outcome:big-allocation (other)" });
+                o.nontrivial = true;
+                o.fail(Kind::ImplPanic, "run", big_sig(in_new_int_array), big_detail(&src, bytes, in_new_int_array));
             }
             Outcome::Ok(out, n) => {
                 if self.debug {
@@ -1656,6 +1896,7 @@ impl C09 {
             Outcome::Panic(m) => format!("panic-other {m}"),
             Outcome::Budget => "budget".to_string(),
             Outcome::Unbounded(w) => format!("unbounded {w}"),
+            Outcome::BigAlloc { bytes, .. } => format!("big-allocation {bytes}"),
         };
         o.tag(format!("proto:{}", got.split(' ').next().unwrap_or("")));
         o.nontrivial = evs.len() >= 1;
@@ -1705,6 +1946,10 @@ impl C09 {
             }
             Outcome::Panic(m) => {
                 o.fail(Kind::ImplPanic, stream, sig_of_panic(&m), format!("{src}: {m}"));
+            }
+            Outcome::BigAlloc { bytes, in_new_int_array } => {
+                // no large array is asked for here: never the label of C09-m
+                o.fail(Kind::ImplPanic, stream, big_sig(false), big_detail(&src, bytes, in_new_int_array));
             }
             Outcome::Budget | Outcome::Unbounded(_) => o.fail(Kind::ModelVsSpec, stream, "budget", src),
         }
@@ -1803,6 +2048,11 @@ impl C09 {
                 o.fail(Kind::ImplPanic, "alloc", sig_of_panic(&m), format!("{src}: {m}"));
                 return;
             }
+            Outcome::BigAlloc { bytes, in_new_int_array } => {
+                // the arrays of this stream have 0-7 elements: never the label of C09-m
+                o.fail(Kind::ImplPanic, "alloc", big_sig(false), big_detail(&src, bytes, in_new_int_array));
+                return;
+            }
             _ => {
                 o.fail(Kind::ModelVsSpec, "alloc", "alloc: budget", src);
                 return;
@@ -1833,6 +2083,10 @@ impl C09 {
             }
             Outcome::Unbounded(w) => {
                 o.fail(Kind::ImplVsSpec, "depth", "input nesting exceeds the 100-level limit", w);
+                return;
+            }
+            Outcome::BigAlloc { bytes, in_new_int_array } => {
+                o.fail(Kind::ImplPanic, "depth", big_sig(false), big_detail(&src, bytes, in_new_int_array));
                 return;
             }
             Outcome::Budget => ("budget", String::new()),
@@ -1904,6 +2158,7 @@ impl C09 {
                 }
             }
             Outcome::Panic(m) => o.fail(Kind::ImplPanic, "loc", sig_of_panic(&m), format!("{src:?}: {m}")),
+            Outcome::BigAlloc { bytes, in_new_int_array } => o.fail(Kind::ImplPanic, "loc", big_sig(false), big_detail(&src, bytes, in_new_int_array)),
             _ => o.fail(Kind::ImplVsModel, "loc", "trace: no located error", format!("{src:?}")),
         }
     }
@@ -1973,6 +2228,10 @@ impl Property for C09 {
             "\\input a./b ",
             "\\openin 1=x>a ",
             "\\newIntArray\\J 3 \\let\\K=\\J \\K 0=1 ",
+            // C09-m: the largest length `\newIntArray` accepts (8 GiB in one request; refused by
+            // the allocation guard) and a large array that is served (4 MB)
+            "\\newIntArray\\J 2147483646 \\J 5=1 ",
+            "\\newIntArray\\J 1000000 \\J 999999=5 \\the\\J 999999 ",
         ];
         for p in progs {
             for m in MODES {
@@ -2222,7 +2481,7 @@ impl Property for C09 {
 
     fn run_case(&mut self, case: &str, drv: &mut Driver) -> CaseOutcome {
         let t0 = std::time::Instant::now();
-        *WATCH.lock().unwrap() = Some((case.to_string(), t0));
+        *WATCH.lock().unwrap() = Some((case.to_string(), t0, cpu_secs()));
         let o = self.run_case_inner(case, drv);
         *WATCH.lock().unwrap() = None;
         if self.debug && t0.elapsed().as_millis() > 50 {
@@ -2231,8 +2490,23 @@ impl Property for C09 {
         o
     }
 
+    fn extra_evidence(&self) -> Option<String> {
+        use std::sync::atomic::Ordering::Relaxed;
+        Some(format!(
+            "\"allocation_guard\": {{\"refuse_single_requests_from_bytes\": {}, \"largest_single_request_served_to_newIntArray_bytes\": {}, \"largest_single_request_served_elsewhere_bytes\": {}, \"refused_requests_from_newIntArray\": {}, \"refused_requests_elsewhere\": {}, \"note\": \"requests below 1 MiB are not recorded; refused requests include the re-runs of the shrinker\"}}",
+            BIG_REQUEST,
+            MAX_SERVED.load(Relaxed),
+            MAX_SERVED_OTHER.load(Relaxed),
+            REFUSED_NEW_INT_ARRAY.load(Relaxed),
+            REFUSED_OTHER.load(Relaxed)
+        ))
+    }
+
     fn shrink(&self, case: &str) -> Vec<String> {
         let mut out = vec![];
+        if parked() >= RUN_STREAM_PARK_CAP {
+            return out; // the `run` stream has stopped: no variant would be run
+        }
         let (stream, rest) = case.split_once(' ').unwrap_or((case, ""));
         match stream {
             "run" => {
@@ -2361,12 +2635,35 @@ impl C09 {
                 // by signal at depth n attributed to the depth itself (and, for `\ifnum`, to the
                 // recorded finding C09-n). Everything else gets a signature of its own.
                 let exe = std::env::current_exe().unwrap();
+                {
+                    // the stream is about the usual 8 MiB main-thread stack; where the hard
+                    // limit of the environment is below that, nothing can be said
+                    let mut r = RLimit { cur: 0, max: 0 };
+                    if unsafe { getrlimit(RLIMIT_STACK, &mut r) } == 0 && r.max < (8 << 20) {
+                        o.tag("deep:not run (hard stack limit below 8 MiB)");
+                        return o;
+                    }
+                }
                 let child = |depth: usize| -> Result<(), (bool, String)> {
-                    let st = std::process::Command::new(&exe)
-                        .args(["--replay-case", &format!("deepchild {depth} {what}"), "--driver", &self.driver_path])
+                    let mut cmd = std::process::Command::new(&exe);
+                    cmd.args(["--replay-case", &format!("deepchild {depth} {what}"), "--driver", &self.driver_path])
                         .stdout(std::process::Stdio::null())
-                        .stderr(std::process::Stdio::null())
-                        .status();
+                        .stderr(std::process::Stdio::null());
+                    // the child's main thread gets the usual 8 MiB whatever `ulimit -s` says in
+                    // the environment of the check (the soft limit at exec time sizes it)
+                    unsafe {
+                        use std::os::unix::process::CommandExt;
+                        cmd.pre_exec(|| {
+                            let mut r = RLimit { cur: 0, max: 0 };
+                            if getrlimit(RLIMIT_STACK, &mut r) == 0 {
+                                let want: u64 = 8 << 20;
+                                r.cur = if r.max < want { r.max } else { want };
+                                setrlimit(RLIMIT_STACK, &r);
+                            }
+                            Ok(())
+                        });
+                    }
+                    let st = cmd.status();
                     match st {
                         Ok(s) if s.code() == Some(0) => Ok(()),
                         // (killed by a signal?, description)
@@ -2418,7 +2715,7 @@ impl C09 {
                 match run_program(&src, false, u64::MAX / 2) {
                     Outcome::Ok(..) => {}
                     Outcome::Panic(m) => o.fail(Kind::ImplPanic, "deep", "deep: not ok", format!("child run panicked: {m}")),
-                    Outcome::Budget | Outcome::Unbounded(_) => o.fail(Kind::ImplPanic, "deep", "deep: not ok", "child run: budget"),
+                    Outcome::Budget | Outcome::Unbounded(_) | Outcome::BigAlloc { .. } => o.fail(Kind::ImplPanic, "deep", "deep: not ok", "child run: budget"),
                     Outcome::Err { rendered: Ok(_), .. } => {}
                     Outcome::Err { title, .. } => o.fail(Kind::ImplPanic, "deep", "deep: not ok", format!("child run: error {title} does not render")),
                 }
@@ -2431,9 +2728,21 @@ impl C09 {
 
 /// The case being run and when it started: a loop that never reaches a hook of the state (so
 /// that the step budget cannot cut it) is noticed by a watchdog thread.
-static WATCH: std::sync::Mutex<Option<(String, std::time::Instant)>> = std::sync::Mutex::new(None);
+static WATCH: std::sync::Mutex<Option<(String, std::time::Instant, f64)>> = std::sync::Mutex::new(None);
 
-/// "Never hangs": when a case has produced no result for `limit` seconds the watchdog writes the
+/// CPU seconds (user + system) this process has used: an endless loop burns CPU, a stall
+/// (machine overloaded or suspended, blocked on the driver's pipe) does not.
+fn cpu_secs() -> f64 {
+    let stat = std::fs::read_to_string("/proc/self/stat").unwrap_or_default();
+    let after = stat.rsplit(')').next().unwrap_or("");
+    let f: Vec<&str> = after.split_whitespace().collect();
+    // fields after the command name: state is index 0, utime index 11, stime index 12
+    let t = |i: usize| f.get(i).and_then(|x| x.parse::<f64>().ok()).unwrap_or(0.0);
+    (t(11) + t(12)) / 100.0
+}
+
+/// "Never hangs": when a case has produced no result for `limit` seconds (and, except for the
+/// `deep` cases, has used the CPU for at least 80 % of them) the watchdog writes the
 /// report itself (one impl-panic failure with the case as replay) and ends the process.
 fn watchdog(out: Option<String>, tier: String, seed: u64) {
     let started = std::time::Instant::now();
@@ -2442,9 +2751,12 @@ fn watchdog(out: Option<String>, tier: String, seed: u64) {
         let stuck = {
             let g = WATCH.lock().unwrap();
             match &*g {
-                Some((case, t)) => {
-                    let limit = if case.starts_with("deep") { 240 } else { 45 };
-                    if t.elapsed().as_secs() >= limit {
+                Some((case, t, cpu0)) => {
+                    // `deep` cases wait for child processes (wall time); every other case must
+                    // also have used the CPU for most of the time it has been running
+                    let deep = case.starts_with("deep");
+                    let limit = if deep { 240 } else { 45 };
+                    if t.elapsed().as_secs() >= limit && (deep || cpu_secs() - cpu0 >= 0.8 * limit as f64) {
                         Some((case.clone(), limit))
                     } else {
                         None
@@ -2455,7 +2767,7 @@ fn watchdog(out: Option<String>, tier: String, seed: u64) {
         };
         if let Some((case, limit)) = stuck {
             let sig = "hang: no result (loop without progress)";
-            let detail = format!("the run produced no result within {limit} s and never reached a hook of the state (so the step budget cannot cut it off): an endless loop");
+            let detail = format!("the case produced no result within {limit} s (the slowest case of a run on the unchanged tree takes 0.2 s; single allocation requests of {} MiB and more are refused by the allocation guard, so this is not the time of a large allocation): a loop that never reaches a hook of the state, so that the step budget cannot cut it off", BIG_REQUEST >> 20);
             match out {
                 Some(path) => {
                     let j = format!(
@@ -2479,7 +2791,16 @@ fn watchdog(out: Option<String>, tier: String, seed: u64) {
     }
 }
 
+#[repr(C)]
+struct RLimit {
+    cur: u64,
+    max: u64,
+}
+const RLIMIT_STACK: i32 = 3;
+
 extern "C" {
+    fn getrlimit(resource: i32, rlim: *mut RLimit) -> i32;
+    fn setrlimit(resource: i32, rlim: *const RLimit) -> i32;
     fn mallopt(param: i32, value: i32) -> i32;
     fn dup2(oldfd: i32, newfd: i32) -> i32;
 }
@@ -2512,6 +2833,7 @@ fn main() {
     let deep_child = std::env::args().any(|a| a.starts_with("deepchild"));
     if deep_child {
         // default main-thread stack on purpose
+        INLINE.store(true, std::sync::atomic::Ordering::Relaxed);
         run(C09 { driver_path, debug: std::env::var("C09_DEBUG").is_ok(), gutter_cache: HashMap::new() });
         return;
     }
